@@ -191,7 +191,7 @@ theorem C02_wide_add_refines (A : Algs) (l : WLoop) (now : UInt64) (ms : Int64) 
     (addTimer A l now (intervalArg ms) rep owner).2 = l.nextTok ∧
     (addTimer A l now (intervalArg ms) rep owner).1.nextTok = l.nextTok + 1 ∧
     (addTimer A l now (intervalArg ms) rep owner).1.heap.Perm
-      ({ tok := l.nextTok, expired := now + intervalArg ms, interval := intervalArg ms, rep := rep, owner := owner } :: l.heap) ∧
+      ({ tok := l.nextTok, expired := now + intervalArg ms, interval := intervalArg ms, rep := rep, owner := owner, base := now.toNat } :: l.heap) ∧
     (now + intervalArg ms).toNat = now.toNat + ms.toInt.toNat := by
   obtain ⟨e1, _, e3⟩ := add_exact now ms hn hms
   obtain ⟨a, b, c, d⟩ := addTimer_spec A l now (intervalArg ms) rep owner h (by omega) e3
